@@ -23,6 +23,7 @@ import (
 	"net/http"
 	"net/url"
 	"strings"
+	"sync"
 	"time"
 
 	corev3 "github.com/envoyproxy/go-control-plane/envoy/config/core/v3"
@@ -52,6 +53,9 @@ var (
 	// ErrMissingLogoutRedirectURI is returned when the logout redirect uri is missing because it was not explicitly
 	// configured or the OIDC Discovery did not return it.
 	ErrMissingLogoutRedirectURI = errors.New("missing logout redirect uri")
+
+	// wellKnownConfigMu serialises the population of the OIDC configurations with the discovered endpoints.
+	wellKnownConfigMu sync.Mutex
 )
 
 // oidc handler is an implementation of the Handler interface that implements
@@ -854,14 +858,26 @@ func loadWellKnownConfig(client *http.Client, cfg *oidcv1.OIDCConfig) error {
 		return err
 	}
 
-	cfg.AuthorizationUri = wellKnownConfig.AuthorizationEndpoint
-	cfg.TokenUri = wellKnownConfig.TokenEndpoint
+	// The configuration object is shared by all the handlers of the filter, which are created per request by
+	// concurrent goroutines. Populate it under a lock and only write what actually changes, so that once the
+	// discovered values are in place nothing is written anymore while other requests are reading them.
+	wellKnownConfigMu.Lock()
+	defer wellKnownConfigMu.Unlock()
+
+	if cfg.GetAuthorizationUri() != wellKnownConfig.AuthorizationEndpoint {
+		cfg.AuthorizationUri = wellKnownConfig.AuthorizationEndpoint
+	}
+	if cfg.GetTokenUri() != wellKnownConfig.TokenEndpoint {
+		cfg.TokenUri = wellKnownConfig.TokenEndpoint
+	}
 	if cfg.GetJwksFetcher() == nil {
 		cfg.JwksConfig = &oidcv1.OIDCConfig_JwksFetcher{
 			JwksFetcher: &oidcv1.OIDCConfig_JwksFetcherConfig{},
 		}
 	}
-	cfg.GetJwksFetcher().JwksUri = wellKnownConfig.JWKSURL
+	if cfg.GetJwksFetcher().GetJwksUri() != wellKnownConfig.JWKSURL {
+		cfg.GetJwksFetcher().JwksUri = wellKnownConfig.JWKSURL
+	}
 
 	if cfg.GetLogout() != nil && cfg.GetLogout().GetRedirectUri() == "" {
 		if wellKnownConfig.EndSessionEndpoint == "" {
